@@ -516,7 +516,7 @@ def shapes_bounded_instance():
 
     def make(B):
         return {'fn': B.choose('fn', ['mvdr', 'mvdr', 'lcmv', 'souden', 'wmwf', 'souden-auto', 'wmwf-auto']), 'D': B.choose('D', [2, 3, 4, 6, 8]), 'F': B.choose('F', ['1', 'D', '5', '32']),
-                'K': B.choose('K', [None, 1, 2, 3]), 'cond': B.choose('cond', [1e1, 1e3, 1e6]), 'mu': B.choose('mu', [0, 0.0, 0.5, 1.0, 100.0]),
+                'K': B.choose('K', [None, 1, 2, 3]), 'cond': B.choose('cond', [1e1, 1e3, 1e6, 1e9]), 'mu': B.choose('mu', [0, 0.0, 0.5, 1.0, 100.0]),
                 'seed': B.choose('seed', list(range(5000))), 'd': B.given('d', np.zeros(1)),
                 'real': B.choose('real', ['none', 'none', 'steering', 'noise', 'both'])}
 
@@ -532,7 +532,9 @@ def shapes_bounded_instance():
         D = inp['D']
         F = {'1': 1, 'D': D, '5': 5, '32': 32}[inp['F']]
         K, fn = inp['K'], inp['fn']
-        Pn = hpd(rng, F, D, inp['cond'])
+        # (the very ill-conditioned noise PSDs -- a strong interferer over weak sensor noise -- only for the MVDR constraint, which holds to
+        # rounding whatever the conditioning; the other closed forms are compared at tolerances that assume cond <= 1e6)
+        Pn = hpd(rng, F, D, inp['cond'] if fn == 'mvdr' else min(inp['cond'], 1e6))
         if inp['real'] in ('noise', 'both'):
             Pn = np.ascontiguousarray(Pn.real)             # real symmetric positive definite, float dtype
         res = {'fn': fn, 'Pn': Pn}
@@ -616,7 +618,8 @@ def shapes_bounded_instance():
                     x = np.linalg.solve(Pn[f], a2[k, f])
                     ref = x / (np.conj(a2[k, f]) @ x)
                     ok_v &= bool(np.allclose(w2[k, f], ref, **tol))
-                    ok_c &= bool(abs(np.conj(w2[k, f]) @ a2[k, f] - 1) < 1e-7)
+                    # (the constraint is met to rounding whatever the conditioning: w is the solved vector divided by its own inner product with a)
+                    ok_c &= bool(abs(np.conj(w2[k, f]) @ a2[k, f] - 1) < 1e-11)
                     # a competing distortionless vector has no less noise power
                     v = rng.normal(size=D) + 1j * rng.normal(size=D)
                     v = w2[k, f] + (v - a2[k, f] * (np.conj(a2[k, f]) @ v) / (np.conj(a2[k, f]) @ a2[k, f]))     # v^H a = 1 kept
@@ -632,10 +635,14 @@ def shapes_bounded_instance():
                 return
             ok = True
             for f in range(F):
+                # (accuracy of the constraint: the response is stored in single precision by the library, and the K x K system
+                # A^H Phi^-1 A amplifies rounding by its condition number)
+                Af = np.asarray(a[:, f, :], dtype=complex).T
+                kap = np.linalg.cond(np.conj(Af.T) @ np.linalg.solve(Pn[f], Af))
                 for k in range(a.shape[0]):
                     got = np.conj(w[f]) @ a[k, f]
                     # (for a complex desired response either side of the conjugate is accepted: w^H a_k = r_k or a_k^H w = r_k)
-                    ok &= bool(min(abs(got - r[k]), abs(np.conj(got) - r[k])) < 1e-6 * max(1.0, abs(r[k])))
+                    ok &= bool(min(abs(got - r[k]), abs(np.conj(got) - r[k])) < (1e-6 + 1e-14 * kap) * max(1.0, float(np.max(np.abs(r)))))
             yield 'every-linear-constraint-met[%s steering, %s response]' % (np.asarray(a).dtype, np.asarray(r).dtype), ok
         elif fn.endswith('-auto'):
             Px, mu = out['Px'], out['mu']
